@@ -24,6 +24,11 @@ def run(ck):
         ck.guard("C05-R5", r5_wrappers, ck, F, "C05-R5")
         ck.guard("C05-R5", r7_mirror, ck, F, "C05-R5")
         ck.guard("C05-R5", r3_reset, ck, F, "C05-R5")
+        # positioning goes through the seeks: their comparison tables are a necessary condition here too
+        from .c02 import r2_descent, r3_rel, r4_offsets
+        ck.guard("C05-R6", r2_descent, ck, F, "C05-R6")
+        ck.guard("C05-R6", r3_rel, ck, F, "C05-R6")
+        ck.guard("C05-R6", r4_offsets, ck, F, "C05-R6")
     ck.trusted += ["rustc MIR construction", "core slice::starts_with / u8::checked_add"]
 
 
@@ -232,6 +237,8 @@ def r4_advance(ck, F):
     R = "C05-R4"
     b = F.body(A("advance_key"))
     names = [callee_name(c).rsplit("::", 1)[-1] for s, c, t in b.calls()]
+    if "rposition" in names:
+        return _advance_rposition(ck, R, F, b, names)
     ck.ob(R, "calls", sorted(names) == sorted(["deref_mut", "last_mut", "checked_add", "pop"]), f"advance_key calls {names}", b, nontrivial=False)
     lm = calls(b, "::last_mut")
     ca = calls(b, "::checked_add")
@@ -278,3 +285,61 @@ def r4_advance(ck, F):
                 lsw = labels2
     ok = lsw is not None and len(none_ret) == 1 and none_ret[0].x.get("site") is not None and b.dominates(lsw["None"], none_ret[0].x["site"].bb) and len(rets) == 2
     ck.ob(R, "arm/empty", ok, "no byte left: None is returned (and these are the only two exits)", b)
+
+
+def _advance_rposition(ck, R, F, b, names):
+    """second accepted idiom of advance_key:
+         let last = bytes.iter().rposition(|&b| b != 0xFF)?;  bytes.truncate(last + 1);  bytes[last] += 1;  Some(bytes)
+    — the same three arms: the last byte that is not 0xFF is incremented, the 0xFF bytes after it are dropped, and
+    a key made only of 0xFF bytes (or empty) has no successor."""
+    ck.ob(R, "calls", set(names) <= {"deref", "deref_mut", "iter", "rposition", "branch", "from_residual", "truncate", "index_mut", "index"}, f"advance_key calls {names}", b, nontrivial=False)
+    rp = calls(b, "::rposition")
+    tr = calls(b, "Vec::<T, A>::truncate") or calls(b, "::truncate")
+    if not (len(rp) == 1 and len(tr) == 1 and not b.loops()):
+        ck.ob(R, "shape", False, "advance_key is neither the last_mut/checked_add/pop loop nor rposition(!= 0xFF)? / truncate(last + 1) / bytes[last] += 1", b)
+        return
+    recv = b.arg_exprs(rp[0][0])[0]
+    over_bytes = any(x.k == "arg" and x.x.get("name") == "bytes" for x in recv.walk()) and any(x.k == "call" and x.x["path"].endswith("::iter") for x in recv.walk()) \
+        and not any(x.k == "call" and x.x["path"].rsplit("::", 1)[-1] in ("rev", "skip", "take", "step_by", "filter", "map") for x in recv.walk())
+    cl = F.closures_of(b.path)
+    pred_ok = False
+    if len(cl) == 1:
+        r = cl[0].expr_at_return().strip()
+        if r.k == "bin" and r.x.get("op") in ("Ne", "Lt"):
+            x, y = r.a[0].strip(), r.a[1].strip()
+            pred_ok = x.k == "arg" and x.x["i"] == 2 and const_val(y) == 255
+    ck.ob(R, "arm/overflow", over_bytes and pred_ok, "trailing 0xFF bytes are skipped: rposition over bytes.iter() with the predicate `byte != 0xFF` finds the last byte that can be incremented", b, rp[0][0])
+    ta = b.arg_exprs(tr[0][0])
+    c_ = checked(ta[1])
+    ok_t = is_arg(ta[0], "bytes") and bool(c_) and c_[0] == "Add" and const_val(c_[2]) == 1 and _is_last(c_[1], rp[0][0])
+    ck.ob(R, "arm/overflow-truncates", ok_t, f"the bytes after it are dropped: truncate(bytes, {ta[1].show()[:60]}) = truncate(last + 1)", b, tr[0][0])
+    # bytes[last] += 1
+    okw = False
+    wsite = None
+    for s, st in b.sites():
+        if s.i is not None and st["s"] == "assign" and st["pl"]["p"] == ["*"]:
+            tgt = b.expr_of_local(st["pl"]["l"], s).strip()
+            val = b._expr_of_def((s, "assign", st["rv"]))
+            cv = checked(val)
+            if tgt.k == "call" and tgt.x["path"].endswith("::index_mut") and is_arg(tgt.a[0], "bytes") and _is_last(tgt.a[1], rp[0][0]) \
+                    and cv and cv[0] == "Add" and const_val(cv[2]) == 1 and cv[1].strip().ident() == tgt.ident():
+                okw = True
+                wsite = s
+    ck.ob(R, "increments-last-byte-by-one", okw, "bytes[last] = bytes[last] + 1 on the byte rposition found", b, wsite)
+    rets = return_alts(b)
+    some_ret = [alt for alt in rets if alt.k == "agg" and alt.x.get("variant") == "Some" and is_arg(alt.a[0], "bytes")]
+    none_ret = [alt for alt in rets if (alt.k == "agg" and alt.x.get("variant") == "None") or (alt.k == "call" and alt.x["path"].endswith("::from_residual") and any(x.k == "call" and x.x.get("site") == rp[0][0] for x in alt.walk()))]
+    ok_s = len(some_ret) == 1 and wsite is not None and some_ret[0].x.get("site") is not None and b.dominates(wsite, some_ret[0].x["site"]) and b.dominates(tr[0][0], some_ret[0].x["site"])
+    ck.ob(R, "arm/no-overflow", ok_s, "after the increment and the truncation Some(bytes) is returned", b)
+    ck.ob(R, "arm/empty", len(none_ret) == 1 and len(rets) == 2, "no byte can be incremented (rposition is None): None is returned (and these are the only two exits)", b)
+
+
+def _is_last(e, site):
+    """e is the index rposition (called at `site`) returned — through `?` or a match"""
+    s = e.strip()
+    if s.k == "call" and s.x.get("site") == site:
+        return True
+    p = unwrap_payload(e, "Some")
+    if p is not None and p.strip().k == "call" and p.strip().x.get("site") == site:
+        return True
+    return any(x.k == "call" and x.x.get("site") == site for x in e.walk()) and s.k in ("field", "call", "var", "phi")
